@@ -73,6 +73,11 @@ func (v *VerifConcSession) Send(m Messagable) error { return v.s.queueForSend(m.
 func (v *VerifConcSession) StopAsync()            { v.s.stop() }
 func (v *VerifConcSession) Done() <-chan struct{} { return v.done }
 
+// Register puts the session into the registry, as createSession does, so that the public SendToTarget / ResetSession
+// find it; Unregister removes it again.
+func (v *VerifConcSession) Register() error { return registerSession(v.s) }
+func (v *VerifConcSession) Unregister()     { _ = UnregisterSession(v.s.sessionID) }
+
 // Panicked reports a panic that ended the event loop ("" if none).
 func (v *VerifConcSession) Panicked() string {
 	if p, ok := v.panicked.Load().(string); ok {
